@@ -42,9 +42,12 @@ CHECKS['C06'] = (
     'structs kernel-checked against the Spec; correspondence of _parse_entries/_decode_CFI_table with the model on spec-encoded and damaged sections',
     'Proof: the decoded unwind table equals the table DWARF §6.4 defines (code/data alignment, restore to CIE rules, remember/restore, final row) for every '
     'instruction sequence on which the standard machine is defined; instruction streams are split into exactly the encoded opcodes/operands.',
-    'entries_exact (section-level entry list: kinds, headers, augmentation data, pcrel pointers, LSDA, FDE->CIE links, zero terminators, cache hits) is proved for .debug_frame and '
-    '.eh_frame; reg_order (insertion order of the register columns) is proved (reg_order_cie/_fde, entries_reg_order); the earlier entries_exact_partial is kept beside the full one. '
-    'CIE v4 address_size != container size and DW_CFA_set_loc under a non-absptr .eh_frame encoding are outside WF (the latter recorded as a known finding). Malformed sections are correspondence-only.',
+    'entries_exact (section-level entry list: kinds, headers, augmentation data, pcrel pointers, LSDA, FDE->CIE links, zero terminators, cache hits) is proved for .debug_frame and .eh_frame; reg_order is proved. '
+    'Whole files: cfi_entries_of_file / eh_cfi_entries_of_file / has_cfi_of_file / file_cfi_table compose the section theorems with C11\'s view and C01 (plain, gABI-compressed, .zdebug, relocated contents; sh_addr is the '
+    'base of the pcrel encodings). Malformed classes are theorems at instruction, entry and scan level (unknown opcode -> DWARFError; declared length past the data / truncated instruction -> ELFParseError; length ending '
+    'inside an instruction -> read in full; augmentation not z/armcc -> AssertionError; CIE pointer past the data -> ELFParseError, before the start (.eh_frame) -> ValueError; a found entry is taken for a CIE unchecked; '
+    'entries_exact_prefix). The known finding eh-set-loc-encoding has boundary theorems (set_loc_reads_target_addr, set_loc_eh_absptr, set_loc_eh_missplit: a proved mis-split under pcrel|sdata4; set_loc_class_iff_excluded). '
+    'Correspondence-only: malformed FDE bodies at entry level, malformed entries before well-formed ones, self-referential FDEs (RecursionError / outOfFuel), arbitrary byte damage. CIE v4 address_size != container size is outside WF.',
     'DESIGN.md §6 C06')
 CHECKS['C13'] = (
     'Lean 4 theorems: aranges entries exact and sorted; bisect-based lookup = "the range containing the address" under the no-shadow hypothesis (with a '
